@@ -3,6 +3,8 @@ Helper lemmas for C13, part 3: the store invariant, what the match lists contain
 between the two decision pipelines and `mostSpecific`.
 -/
 import CV.Proofs.IxnDecide
+set_option linter.unusedSimpArgs false
+set_option linter.unusedVariables false
 namespace CV.Ixn
 
 def srcKey (s : Src) : Name × Name := (s.peer, s.name)
